@@ -16,9 +16,21 @@ def _int_ty(callee):
     return m.group(1) if m else None
 
 
+def _is_item(t):
+    t = strip(t)
+    while t[0] in ("cast", "ref"):
+        t = strip(t[2] if t[0] == "cast" else t[1])
+    return t[0] == "call" and t[1].rsplit("::", 1)[-1] == "next"
+
+
 def _range_consts(t):
     bv = byteview(t)
-    if bv and bv[2] is not None and (bv[1], bv[2]) != (0, None) and slice_of(strip_casts(t) if strip_casts(t)[0] != "cast" else t) is not None:
+    if bv is None and any(y[0] == "call" and y[1].rsplit("::", 1)[-1] == "next" and "Chunks" in y[1] for y in leaves(t)):
+        raise Unusable("layout: header bytes are taken from a chunk iterator whose position cannot be determined statically")
+    if bv and _is_item(bv[0]):
+        raise Unusable("layout: header bytes are taken from an iterator item whose position cannot be determined statically")
+    x = strip_casts(t) if strip_casts(t)[0] != "cast" else t
+    if bv and bv[2] is not None and (bv[1], bv[2]) != (0, None) and (slice_of(x) is not None or _is_item(x)):
         return bv[1], bv[2], strip(bv[0])
     return None
 
@@ -28,6 +40,8 @@ def reader_fields(fn, buf_bias=0):
     (buf_bias = bytes consumed before the buffer, e.g. the packet type byte)."""
     R = Resolver(fn)
     out = {}
+    import bytesview
+    bytesview.CONTEXT_FN[0] = fn
     for bi in fn.cfg():
         for st in fn.blocks[bi]["stmts"]:
             rv = st["rv"]
@@ -318,6 +332,8 @@ def layouts(ctx, prog, rule):
 def _validated_consts(fn, table):
     """field -> constant the reader insists on (the other branch cannot reach an Ok return)."""
     R = Resolver(fn)
+    import bytesview
+    bytesview.CONTEXT_FN[0] = fn
     by_off = {(v[0], v[1]): k for k, v in table.items()}
 
     def name_of(t):
@@ -342,6 +358,19 @@ def _validated_consts(fn, table):
                         bad = e["otherwise"] if d[1] == "Ne" else e.get("0")
                         if fn.ok_reachable(start=[bad]) is None:
                             out[n] = const_val(b)
+    # match (id, ..) { (1, ..) => .., _ => Err }: the value the only Ok-reaching case insists on
+    for bi in fn.cfg():
+        te = int_test_edges(fn, R, bi)
+        if te is None:
+            continue
+        val, cases, others = te
+        n = name_of(val)
+        if not n or n in out:
+            continue
+        for k, succ in cases.items():
+            rest = list(others) + [s2 for k2, s2 in cases.items() if k2 != k]
+            if rest and all(fn.ok_reachable(start=[s2]) is None for s2 in rest) and fn.ok_reachable(start=[succ]) is not None:
+                out[n] = k
     for bi, t in fn.calls(lambda c, t: c.rsplit("::", 1)[-1] in ("ne", "eq")):
         a, b = R.operand(t["args"][0]), R.operand(t["args"][1])
         for x, y in ((a, b), (b, a)):
